@@ -5,8 +5,10 @@ Called from the END of harness/vp/c04.py:run() with the histories of all C04 str
 with them.  For every exported history Coq computes FROM THE OPERATIONS the final mapping (Spec/C04LastWrite.v:final), the
 model state `run ops`, the design `design_of u (final . ops)` over the universe printed here (what the integers of the
 history stand for: instances, port lanes, signals, what every pool object is), decides whether the history is inside the
-hypotheses of Props/C04E.v (u_ok, shape_ok, closed_ok, wf_design, frag_ok2, xinfo_ok) and compares the pipeline model's
-package with the package the implementation exported after performing the history.
+hypotheses of Props/C04E.v (u_ok, shape_ok, wf_design, frag_ok2, xinfo_ok; closed_mod_ok: no connection of a module instance on a name
+that is no port) and compares the pipeline model's package for the design IN THE ORDER OF THE `conns` DICTS (Model/C04EOrd.v) with the
+package the implementation exported after performing the history.
+A second stream, `anonrefs` (below), runs histories of an extended world through the ordinary C04 evaluation.
 Codes (Corr/C04E.v): 0 identical, 7 same nets (differences the property does not fix), 9 outside the fragment, 8 loop between
 group sources, 1/6 implementation violates the property, 2 tie broken, 4/5 checker inconsistency, 3 harness.
 The universe is NOT taken from the abstract design harness/vp/c04.py builds in Python for its own end-to-end check: the
